@@ -138,7 +138,11 @@ def _work_meta(args):
             base = norm
             continue
         for key in ("stations", "energy", "t", "peak", "evhist"):
-            if json.dumps(base[key], sort_keys=True) != json.dumps(norm[key], sort_keys=True):
+            same = json.dumps(base[key], sort_keys=True) == json.dumps(norm[key], sort_keys=True)
+            if key == "peak" and kw != kws[0]:
+                # an aggregate over stations: registration order changes the order of summation only
+                same = abs(base[key] - norm[key]) <= 1e-9 * max(1.0, abs(base[key]))
+            if not same:
                 return {"owner": "C10", "field": "variation." + key, "spec": base[key], "impl": norm[key], "step": -1,
                         "note": "", "variation": kw, "in_base": False}
         if any(v != (0, 0) for v in norm["lead"].values()):
@@ -254,17 +258,62 @@ def hash_prop(prop):
     return int(prop[1:]) * 7
 
 
+def _work_step(args):
+    bhv, kw, seed = args
+    from .acnsim_replay import replay_step
+    d = replay_step(bhv, _var(kw, seed))
+    return d.as_dict() if d else None
+
+
+STEP_ACTIONS = ["StartStep", "StepCall", "SLoop", "SLoopError", "UpdateAt", "ApplyAt", "SEvents", "SProc", "SProcOccupied"]
+
+
+def step_mode(rep, prop, owners, tier, seed):
+    """The second entry point, Simulator.step (spec/AcnSimStep.tla): model checking + replay."""
+    ov = {"MaxCrash": "= 2", "MaxArr": "= 2"} if tier == "quick" else {}
+    mc = run_tlc("MC_AcnSimStep", "AcnSimStep_mc", overrides=ov, coverage=(tier == "quick"), timeout=3600)
+    rep.add_tlc(mc, "step(): exhaustive model checking (ledger, pilots, plug-in discipline carry over; LateOnlyAtZero, "
+                    "StepStuck, ResolveIsForever describe what differs from run())", "AcnSimStep_mc %s" % ov,
+                require_actions=STEP_ACTIONS)
+    require_ok(mc, "AcnSimStep model checking")
+    n = 300 if tier == "quick" else 6000
+    bhvs, stats = gen_behaviours("AcnSimStep_gen", {}, n, 120, seed + 17, procs=2 if tier == "quick" else 8,
+                                 module="MC_AcnSimStep")
+    for s in stats:
+        rep.add_tlc(s, "step(): behaviour generation (-simulate)", "AcnSimStep_gen")
+    jobs = [(b, _kw_cycle(i, seed), seed * 100003 + i) for i, b in enumerate(bhvs)]
+    for (b, kw, _), d in zip(jobs, run_pool(_work_step, jobs, 8)):
+        rep.replayed += 1
+        rep.count("step-" + jhash(b), sum(1 for r in b if r["a"] == "apply") >= 1)
+        if d is None:
+            continue
+        if d["owner"] in owners:
+            rep.violation("%s:step:%s" % (d["owner"], d["field"].split("[")[0].split("@")[0]),
+                          "step(): %s: spec %s, implementation %s (record %s)" % (
+                              d["field"], json.dumps(d["spec"])[:200], json.dumps(d["impl"])[:200], d["step"]),
+                          {"kind": "acnsim_step", "behaviour": b, "variation": kw, "divergence": d})
+        else:
+            rep.foreign_divergence(d["owner"])
+    rep.notes.append("%d behaviours of AcnSimStep.tla (Simulator.step driven with the spec's schedules; TypeError and "
+                     "StationOccupiedError outcomes included) replayed" % len(jobs))
+
+
 def check_C01(tier, seed):
-    return check_spec_replay("C01", tier, seed, {"C01"}, {"MaxCrash": "= 0", "Menu": "<- MenuBasic"}, 1500, 40000).finish()
+    rep = check_spec_replay("C01", tier, seed, {"C01"}, {"MaxCrash": "= 0", "Menu": "<- MenuBasic"}, 1500, 40000)
+    step_mode(rep, "C01", {"C01"}, tier, seed)
+    return rep.finish()
 
 
 def check_C02(tier, seed):
-    return check_spec_replay("C02", tier, seed, {"C02", "C03"}, {"MaxCrash": "= 0", "Menu": "<- MenuBasic"}, 1500, 40000).finish()
+    rep = check_spec_replay("C02", tier, seed, {"C02", "C03"}, {"MaxCrash": "= 0", "Menu": "<- MenuBasic"}, 1500, 40000)
+    step_mode(rep, "C02", {"C02", "C03"}, tier, seed)
+    return rep.finish()
 
 
 def check_C04(tier, seed):
     rep = check_spec_replay("C04", tier, seed, {"C04"}, {"MaxCrash": "= 1", "Menu": "<- MenuC04", "AllowDump": "= FALSE"},
                             1500, 40000)
+    step_mode(rep, "C04", {"C04"}, tier, seed)
     return rep.finish()
 
 
